@@ -67,7 +67,7 @@ fn main() {
 		std::process::exit(1);
 	}
 	if !fbverif::props::run(&mut ctx) {
-		eprintln!("unknown property {id}; known: {:?}", fbverif::props::ALL);
+		eprintln!("unknown property {id}; known: {:?}", fbverif::props::all());
 		std::process::exit(2);
 	}
 	std::process::exit(ctx.finish());
